@@ -25,8 +25,12 @@ KINDS = ('contract', 'transport', 'transport', 'storage', 'multi', 'multi', 'coa
 
 def run_case(rng, tier, case):
     lp_only = rng.random() < 0.8
-    base = gen.gen_mixed_portfolio(rng, kinds=[k for k in KINDS if not (lp_only and k in ('plant', 'chp'))], grid_kw={'steps': (6, 30)}, n_assets=(2, 5), n_nodes=(1, 3), mip_ok=not lp_only)
+    base = gen.gen_mixed_portfolio(rng, kinds=[k for k in KINDS if not (lp_only and k in ('plant', 'chp'))], grid_kw={'steps': (6, 30)}, n_assets=(2, 5), n_nodes=(1, 3), mip_ok=not lp_only,
+                                   data_caps=True)
+    cap_levels = base.get('_cap_levels') or {}
     spec = gen.strip_private(base)
+    if cap_levels:
+        case.feature('capacity_from_data')
     g = spec['grid']
     pts = gen.grid_points(g); T = len(pts)
     for t in gen.asset_types(spec):
@@ -65,7 +69,7 @@ def run_case(rng, tier, case):
     if not r0.solved:
         case.inconc('unfixed not solved'); return
     x0 = np.asarray(r0.res.x, float).copy()
-    pr = r0.built.prices if same_prices else {k: np.asarray(v) for k, v in gen.gen_prices(rng, T, sorted(spec['prices'])).items()}
+    pr = r0.built.prices if same_prices else {k: np.asarray(v) for k, v in gen.gen_prices(rng, T, sorted(spec['prices']), cap_levels=cap_levels).items()}
     spec2 = spec if same_prices else dict(spec, prices={k: [float(x) for x in v] for k, v in pr.items()})
     # a fresh set of objects for the fixed run, the window dictionary passed as a copy
     fw = {'I': copy.deepcopy(I), 'x': x0.copy()}
@@ -74,6 +78,12 @@ def run_case(rng, tier, case):
         case.check('fix.setup_works', False, window=wkind, error=flow.describe_error(r1)); return
     case.check('fix.setup_works', True, window=wkind)
     s0 = Snap(r0.op); s1 = Snap(r1.op)
+    if not same_prices and cap_levels:
+        # bounds depend on the data set: the baseline for 'all other variables remain free' is the UNFIXED set-up with the new data
+        rb = flow.run_portfolio(spec2, do_optimize=False)
+        if not rb.ok or len(Snap(rb.op).c) != len(s0.c):
+            case.inconc('unfixed set-up with the new data failed / differs in size'); return
+        s0 = Snap(rb.op)
     if len(s0.c) != len(s1.c):
         case.check('fix.same_variables', False, n0=len(s0.c), n1=len(s1.c)); return
     m = s1.mapping
